@@ -20,9 +20,12 @@ def determinism(props, n, seed):
 
     props = props or sorted(registry.PROPS)
     bad = 0
-    for prop in props:
+    for spec in props:
+        prop, _, only = spec.partition(':')  # 'C09' = every batch, 'C09:2' = batch 2 only
         P = registry.PROPS[prop]
         for b, batch in enumerate(P['batches']):
+            if only and int(only) != b:
+                continue
             jobs = [dict(id=i, prop=prop, batch=b, seed=cli.derive_seed(seed + 7919, prop, b, i), hclass=i % cli.HCLASSES)
                     for i in range(n)]
             t0 = time.monotonic()
